@@ -417,14 +417,36 @@ impl<Store: StorageData> DbImpl<Store> {
         let mut transaction = TransactionMut::new(&mut *self);
         let result = f(&mut transaction);
 
-        let finished = if result.is_ok() {
+        // A storage operation that failed part way (e.g. the disk is full)
+        // returned before finishing its own storage transaction. Neither the
+        // in-memory structures nor the undo stack can then be trusted to
+        // describe what reached the storage.
+        let intact = transaction.storage_transaction() == storage_transaction;
+        let finished = if !intact {
+            Err(DbError::storage(
+                DbErrorType::NotAllowed,
+                "a storage operation failed during the transaction",
+            ))
+        } else if result.is_ok() {
             transaction.commit()
         } else {
             transaction.rollback()
         };
+        let stored = self.storage.commit(storage_transaction);
 
-        self.storage.commit(storage_transaction)?;
-        finished?;
+        if finished.is_err() || stored.is_err() {
+            // Go back to what the storage held when the transaction began
+            // (if the storage is able to) and load the in-memory structures
+            // from it again.
+            if self.storage.rollback()? {
+                self.reload()?;
+            }
+        }
+
+        if result.is_ok() {
+            stored?;
+            finished?;
+        }
 
         result
     }
@@ -1211,6 +1233,20 @@ impl<Store: StorageData> DbImpl<Store> {
             values: values_storage,
             undo_stack: vec![],
         })
+    }
+
+    pub(crate) fn storage_transaction(&self) -> u64 {
+        self.storage.current_transaction()
+    }
+
+    fn reload(&mut self) -> Result<(), DbError> {
+        let index = self.storage.value::<DbStorageIndex>(StorageIndex(1))?;
+        self.graph = DbGraph::from_storage(&self.storage, index.graph)?;
+        self.aliases = DbIndexedMap::from_storage(&self.storage, index.aliases)?;
+        self.indexes = DbIndexes::from_storage(&self.storage, index.indexes)?;
+        self.values = DbKeyValues::from_storage(&self.storage, index.values)?;
+        self.undo_stack.clear();
+        Ok(())
     }
 
     fn try_new(filename: &str) -> Result<Self, DbError> {
